@@ -73,3 +73,75 @@ fn roundtrip(display: bool, id: &'static str) {
 }
 pub fn h_c09_stored_form() { roundtrip(false, "C09.stored_form.parses_back_to_the_same_tree"); reach("C09.stored_form"); }
 pub fn h_c09_display_form() { roundtrip(true, "C09.display_form.parses_back_to_the_same_tree"); reach("C09.display_form"); }
+
+// ---- C11: the parser itself never panics
+fn parse_any(max: usize, mode: LexerMode) {
+    let text = any_ascii_string(max);
+    let locale = locale_with(".", ",");
+    let ctx = CellReferenceRC { sheet: "Sheet1".to_string(), row: 5, column: 5 };
+    let mut parser = Parser::new(vec!["Sheet1".to_string()], vec![], HashMap::new(), &locale, language_en());
+    parser.set_lexer_mode(mode);
+    let node = parser.parse(&text, &ctx);
+    // a text that is no formula comes back as a parse-error node, not as a panic
+    let is_error = match node { Node::ParseErrorKind { .. } => true, _ => false };
+    check("C11.parser.empty_text_is_a_parse_error", (text.len() > 0) | is_error);
+}
+pub fn h_c11_parser_a1() { parse_any(3, LexerMode::A1); reach("C11.parser_a1"); }
+pub fn ht_c11_parser_r1c1() { parse_any(3, LexerMode::R1C1); reach("C11.parser_r1c1"); }
+
+// ---- C09 from the text side: a formula assembled from pieces is parsed, printed (display / stored form) and parsed
+// again; the two trees must be equal.  Every tree here is parser-produced by construction.
+const LEAVES: [&str; 12] = ["A1", "$B$2", "Sheet1!C$3", "Ghost!A1", "A1:B2", "$A:$B", "2:3", "1.5", "\"a\"\"b\"", "TRUE", "#N/A", "{1,2;3,4}"];
+const OPS: [&str; 13] = ["+", "-", "*", "/", "^", "&", "=", "<", ">", "<=", ">=", "<>", ":"];
+
+fn text_roundtrip(display: bool, id: &'static str) {
+    let (l, o, r) = (any_usize_to(LEAVES.len() - 1), any_usize_to(OPS.len()), any_usize_to(LEAVES.len() - 1));
+    // o == OPS.len(): a single leaf, optionally under unary minus / percent (chosen by r's parity)
+    let text = if o == OPS.len() { if r % 3 == 0 { LEAVES[l].to_string() } else if r % 3 == 1 { format!("-{}", LEAVES[l]) } else { format!("{}%", LEAVES[l]) } }
+               else { format!("{}{}{}", LEAVES[l], OPS[o], LEAVES[r]) };
+    if o == OPS.len() { assume(r < 3); }
+    let locale = locale_with(".", ",");
+    let ctx = CellReferenceRC { sheet: "Sheet1".to_string(), row: 5, column: 5 };
+    let mut parser = Parser::new(vec!["Sheet1".to_string()], vec![], HashMap::new(), &locale, language_en());
+    let first = parser.parse(&text, &ctx);
+    // the property speaks about formulas the parser accepts (`$B$2:TRUE`, `1.5:A1` ... are parse errors)
+    let rejected = match first { Node::ParseErrorKind { .. } => true, _ => false };
+    assume(!rejected);
+    // `a:b:c`: the stored form re-associates reference:range into range:reference; the bounding box is the same
+    assume(!((o == 12) & (r >= 4) & (r <= 6)));
+    let printed = if display { to_localized_string(&first, &ctx, &locale, language_en()) } else { to_rc_format(&first) };
+    parser.set_lexer_mode(if display { LexerMode::A1 } else { LexerMode::R1C1 });
+    let second = parser.parse(&printed, &ctx);
+    check(id, second == first);
+}
+pub fn h_c09_text_display_form() { text_roundtrip(true, "C09.text_display_form.second_parse_gives_the_same_tree"); reach("C09.text_display"); }
+pub fn h_c09_text_stored_form() { text_roundtrip(false, "C09.text_stored_form.second_parse_gives_the_same_tree"); reach("C09.text_stored"); }
+
+// ---- C09 with function calls (the function-name table is the real English one)
+const FARGS: [&str; 6] = ["A1", "$B$2:C3", "Sheet1!C$3", "1.5", "\"x\"", "TRUE"];
+const FOPS: [&str; 6] = ["+", "*", "^", "&", "=", "<>"];
+
+fn function_text_roundtrip(display: bool, id: &'static str) {
+    let (shape, l, o, r) = (any_u8(), any_usize_to(FARGS.len() - 1), any_usize_to(FOPS.len() - 1), any_usize_to(FARGS.len() - 1));
+    assume(shape < 6);
+    let (a, op, b) = (FARGS[l], FOPS[o], FARGS[r]);
+    let text = if shape == 0 { format!("SUM({a},{b})") }
+        else if shape == 1 { format!("IF({a}{op}{b},{a},{b})") }
+        else if shape == 2 { format!("SUM({a}){op}{b}") }
+        else if shape == 3 { format!("{a}{op}MAX({b},2)") }
+        else if shape == 4 { format!("-SUM({a}{op}{b})") }
+        else { format!("IF(AND({a},PI()>3),{b}%,NOT({a}))") };
+    if shape == 0 || shape == 5 { assume(o == 0); }
+    let locale = locale_with(".", ",");
+    let ctx = CellReferenceRC { sheet: "Sheet1".to_string(), row: 5, column: 5 };
+    let mut parser = Parser::new(vec!["Sheet1".to_string()], vec![], HashMap::new(), &locale, language_en());
+    let first = parser.parse(&text, &ctx);
+    let rejected = match first { Node::ParseErrorKind { .. } => true, _ => false };
+    check("C09.functions.accepted", !rejected);
+    let printed = if display { to_localized_string(&first, &ctx, &locale, language_en()) } else { to_rc_format(&first) };
+    parser.set_lexer_mode(if display { LexerMode::A1 } else { LexerMode::R1C1 });
+    let second = parser.parse(&printed, &ctx);
+    check(id, second == first);
+}
+pub fn h_c09_functions_display_form() { function_text_roundtrip(true, "C09.functions_display_form.second_parse_gives_the_same_tree"); reach("C09.functions_display"); }
+pub fn h_c09_functions_stored_form() { function_text_roundtrip(false, "C09.functions_stored_form.second_parse_gives_the_same_tree"); reach("C09.functions_stored"); }
